@@ -8,7 +8,7 @@ PATH_VALUES = ['x', 'a_b', 'a-b', 'a.b', 'WORK', 'w', 'HAMLET', 'hamlet', 'PUBLI
 class C05(PropBase):
     id = 'C05'
     rule = ('every concrete Sid of every configured type over value sets incl. mapped values used as open values (WORK, w, HAMLET, hamlet), values with "_" "." "-", '
-            'node / no-node cache files; each in every path configuration, positional and keyword; non-trivial = the Sid has a path; distinct by (sid, config)')
+            'node / no-node cache files, free values containing ":" (written as uri); each in every path configuration, positional and keyword; non-trivial = the Sid has a path; distinct by (sid, config)')
     def concrete(self, rng, v, t):
         segs = []
         for k, e in v.types[t]:
@@ -25,6 +25,12 @@ class C05(PropBase):
         for t in v.order:
             for _ in range(n):
                 s = self.concrete(rng, v, t)
+                opens = [i for i, (k, e) in enumerate(v.types[t]) if v.alternatives(e) is None]
+                if opens and rng.random() < 0.15:
+                    # a free value with the uri separator in it: such a Sid is written as a uri (type:string)
+                    segs = s.split('/')
+                    segs[rng.choice(opens)] = rng.choice(['a:b', 'x:', ':y', 'a:b:c'])
+                    s = t + ':' + '/'.join(segs)
                 for cfg in cfgs + ['']:
                     out.append(Case('pathroundtrip', [['s', s], cfg, cfg], 'roundtrip', {'sid': s, 'cfg': cfg}))
                     out.append(Case('path', [['s', s], cfg, rng.choice(['pos', 'kw'])], 'path', {'sid': s, 'cfg': cfg}))
